@@ -96,6 +96,7 @@ func RecordSchema(r *rng.Rand, o FrontOpts) *spec.Node {
 				odd := []string{"m.[x]", "a b ", "x].", "p.q.", "k[0]x", "é."}[r.Intn(6)] + lk
 				f.Tags = map[string]string{"zog": odd, "json": "j" + odd}
 			}
+			LookAlikeTags(r, &f)
 			n.Fields = append(n.Fields, f)
 		}
 		if r.Intn(4) == 0 {
@@ -337,4 +338,20 @@ func FlatKeysUnique(n *spec.Node, tag string) bool {
 	}
 	walk(n)
 	return ok
+}
+
+// LookAlikeTags sometimes gives a field tags whose names merely end in the names zog reads (`azog:"..." ajson:"..."`), declared before
+// the real ones: a struct tag is read by its exact name, tags of other libraries mean nothing.
+func LookAlikeTags(r *rng.Rand, f *spec.Field) {
+	if r.Intn(8) != 0 {
+		return
+	}
+	if f.Tags == nil {
+		f.Tags = map[string]string{}
+	}
+	for _, name := range []string{"zog", "json", "form", "query", "env"} {
+		if r.Bool() {
+			f.Tags["a"+name] = "wrong_" + name
+		}
+	}
 }
